@@ -3,7 +3,6 @@ package c09
 import (
 	"bytes"
 	"fmt"
-	"reflect"
 	"testing"
 
 	"github.com/safing/portbase/formats/dsd"
@@ -56,8 +55,8 @@ func TestPropHeldBlobs(t *testing.T) {
 			if got != resolveSer(h.f) {
 				t.Fatalf("held blob %d: Load reports format %s, dumped as %s", i, fmtName(got), fmtName(resolveSer(h.f)))
 			}
-			if render(target) != render(h.v) && !reflect.DeepEqual(target, h.v) {
-				t.Fatalf("held blob %d of %d (%s, %s) loads to another value: %s, dumped %s", i, n, fmtName(h.f), compName(h.comp), brief(target), brief(h.v))
+			if d := diffValues(h.v, target); d != "" {
+				t.Fatalf("held blob %d of %d (%s, %s) loads to another value: %s", i, n, fmtName(h.f), compName(h.comp), d)
 			}
 		}
 		stats.Case(fmt.Sprintf("held/%d/%s", n, render(hs[0].v)), true, fmt.Sprintf("held_blobs_%d", n))
